@@ -131,7 +131,7 @@ def run(tier, replay=None):
     # every third program with its stages in a file of their own below a sub-directory of MROPATH,
     # included by the sibling spelling
     specs = [psrun.make_spec(q, sem[q["name"]], {"kind": "random", "seed": vlib.seed() + i, "penv": 0.6}, name=q["name"],
-                             layout=("subdir" if i % 3 == 0 else ""))
+                             layout=("subdir" if i % 3 == 0 else "sibling" if i % 3 == 1 else ""))
              for i, q in enumerate(progs)]
     res = psrun.run_specs(specs, nproc=16)
     checked = 0
